@@ -501,21 +501,33 @@ def oracle_poly(ctx, case, lan, d, sfl, impl, extra_tol=None):
             ctx.fail("C20/interpolate_position/centre-point-not-at-arc-length",
                      f"s={s}: centre {[float(F(g)) for g in got['c']]}, point at arc length s is {[float(w) for w in want_c]}", one)
             continue
+        # right / left: the points at the same segment parameter, on a segment that contains s (two candidates at a vertex)
+        cands = [k for k in range(len(lens)) if cum[k] - tol <= sF <= cum[k + 1] + tol]
+        bad = None
+        for k in cands:
+            tk = (sF - cum[k]) / lens[k]
+            bad_k = None
+            for name, poly in (("right", ri), ("left", le)):
+                want = (poly[k][0] + tk * (poly[k + 1][0] - poly[k][0]), poly[k][1] + tk * (poly[k + 1][1] - poly[k][1]))
+                # conditioning: an error of a few ulp of the total length in s - cum[k] is amplified by |delta| / len_k
+                amp = Fraction(64, 2 ** 53) * (total / lens[k]) * max(abs(poly[k + 1][0] - poly[k][0]), abs(poly[k + 1][1] - poly[k][1]))
+                tt = tol + (0 if exact else amp)
+                if not all(abs(F(g) - w) <= tt for g, w in zip(got[name[0]], want)):
+                    bad_k = (name, want)
+                    break
+            if bad_k is None:
+                bad = None
+                break
+            bad = bad or bad_k
+        if bad is not None:
+            name, want = bad
+            ctx.fail(f"C20/interpolate_position/{name}-point-not-at-same-parameter",
+                     f"s={s}: {name} {[float(F(g)) for g in got[name[0]]]}, same segment parameter gives {[float(w) for w in want]}", one)
+            continue
         k = got["idx"]
-        if not (0 <= k < len(lens)) or not (cum[k] - tol <= sF <= cum[k + 1] + tol):
+        if not (0 <= k < len(lens)) or k not in cands:
             ctx.fail("C20/interpolate_position/segment-id-does-not-contain-s", f"s={s}: segment id {k}, cumulative {list(map(float, cum))}",
                      one)
-            continue
-        tk = (sF - cum[k]) / lens[k]
-        for name, poly in (("right", ri), ("left", le)):
-            want = (poly[k][0] + tk * (poly[k + 1][0] - poly[k][0]), poly[k][1] + tk * (poly[k + 1][1] - poly[k][1]))
-            # conditioning: an error of a few ulp of the total length in s - cum[k] is amplified by |delta| / len_k
-            amp = Fraction(64, 2 ** 53) * (total / lens[k]) * max(abs(poly[k + 1][0] - poly[k][0]), abs(poly[k + 1][1] - poly[k][1]))
-            tt = tol + (0 if exact else amp)
-            if not all(abs(F(g) - w) <= tt for g, w in zip(got[name[0]], want)):
-                ctx.fail(f"C20/interpolate_position/{name}-point-not-at-same-parameter",
-                         f"s={s}: {name} {[float(F(g)) for g in got[name[0]]]}, same segment parameter gives {[float(w) for w in want]}",
-                         one)
 
 
 def run_polyfloat(ctx, case):
@@ -734,10 +746,8 @@ def run_net(ctx, case):
     ctx.case(case)
     net, lans = build_net(nodes)
     lens = {i: Fraction(float(lans[i].distance[-1])) for i in ids}
-    for nd in nodes:
-        if lens[nd["id"]] != F(nd["len"]):
-            raise RuntimeError("C20 harness: lanelet length is not the requested grid length")
-    model = ctx.driver.ask("C20", "routes", {"net": nodes, "queries": queries})
+    # the model's length function is what the real lanelets report (`distance[-1]`); on the unchanged tree = the requested length
+    model = ctx.driver.ask("C20", "routes", {"net": [nd | {"len": rat(lens[nd["id"]])} for nd in nodes], "queries": queries})
     impl = []
     npaths = {}
     old = signal.signal(signal.SIGALRM, _on_alarm)
@@ -802,7 +812,7 @@ def run_case(ctx, case):
 def run(ctx):
     for p in sorted(glob.glob(os.path.join(CORPUS_DIR, "C20", "*.json"))):
         run_case(ctx, json.load(open(p)))
-    for i in range(ctx.n(500)):
+    for i in range(ctx.n(1000)):
         run_case(ctx, gen_poly(ctx, repeated=(i % 10 == 9)))
     for _ in range(ctx.n(150)):
         run_case(ctx, gen_polyfloat(ctx))
@@ -820,7 +830,7 @@ def run(ctx):
         allk4 = list(itertools.islice(exhaustive_nets(4), 4096))
         for ids, succ in ctx.rng.sample(allk4, 150):
             run_case(ctx, exhaustive_case(ids, succ, ctx.rng))
-    for _ in range(ctx.n(500)):
+    for _ in range(ctx.n(1000)):
         run_case(ctx, gen_net(ctx))
 
 
